@@ -335,17 +335,15 @@ class Polynomial(Vector):
                         are broadcasted together.
         """
 
-        if self.order == 0:
-            if recursive:
-                return Scalar(example=self)
-            else:
-                return Scalar(example=self.wod)
-
         x = Scalar.as_scalar(x, recursive=recursive)
+
+        if self.order == 0:
+            return self.to_scalar(0, recursive=recursive) * x.wod**0
+
         x_powers = [1., x]
         x_power = x
         for k in range(1,self.order):
-            x_power *= x
+            x_power = x_power * x
             x_powers.append(x_power)
 
         x_powers = Vector.from_scalars(*(x_powers[::-1]))
